@@ -7,6 +7,8 @@ import Mathlib.Algebra.BigOperators.Intervals
 import Mathlib.Algebra.Polynomial.Basic
 import Mathlib.Algebra.Polynomial.Coeff
 import Mathlib.Algebra.Polynomial.Degree.Defs
+import Mathlib.Algebra.Polynomial.Eval.Defs
+import Mathlib.Algebra.Polynomial.FieldDivision
 /-
   Ark.Proofs.PolyA — helper lemmas for property C08 (part a): the DENSE univariate polynomial
   operators of `Ark.Model.Poly`.
@@ -41,6 +43,8 @@ theorem coeff_of_le {p : List F} {i : Nat} (h : p.length ≤ i) : coeff p i = 0 
 
 theorem coeff_of_lt {p : List F} {i : Nat} (h : i < p.length) : coeff p i = p[i] := by
   simp [coeff, List.getD_eq_getElem?_getD, h]
+
+instance [DecidableEq F] (p : List F) : Decidable (Canon p) := by unfold Canon; infer_instance
 
 theorem canon_nil : Canon ([] : List F) := by simp [Canon]
 
@@ -464,6 +468,7 @@ theorem scale_spec {a : List F} (ha : Canon a) (f : F) :
     · exact h
     · exact absurd h hf
 
+omit [IsDomain F] in
 theorem scale_zero (a : List F) : scale a (0 : F) = [] := by
   unfold scale; simp
 
@@ -802,8 +807,292 @@ theorem divLoop_spec (a b : List F) (hbne : b ≠ []) (inv : F)
         simp only [Nat.add_zero]
         ring)
     refine ⟨q', r', ?_, hcr', hinv', hdeg'⟩
-    simp only [degree_of_canon hr, ok_bind, hq1, hr1, hres]
+    simp only [ok_bind, hq1, hr1, hres]
+
+theorem Canon.not_isZero {b : List F} (hb : Canon b) (hbne : b ≠ []) : ¬ isZero b = true :=
+  fun h => hbne (hb.isZero_iff.1 h)
+
+theorem divide_spec {a b : List F} (ha : Canon a) (hb : Canon b) (hbne : b ≠ []) :
+    ∃ q r, divideWithQAndR (.d a) (.d b) = .ok (q, r) ∧ Canon q ∧ Canon r ∧
+      (∀ k, coeff a k = conv q b k + coeff r k) ∧ (r = [] ∨ r.length < b.length) := by
+  have hzb : ¬ isZero b = true := hb.not_isZero hbne
+  have hblen : 0 < b.length := List.length_pos_iff.2 hbne
+  unfold divideWithQAndR
+  simp only [DoS.isZero, DoS.degree, DoS.toDense, DoS.leadingCoefficient, DoS.iterWithIndex]
+  by_cases hza : isZero a = true
+  · have ha0 : a = [] := ha.isZero_iff.1 hza
+    refine ⟨[], [], by simp only [hza, ↓reduceIte], canon_nil, canon_nil, fun k => ?_, Or.inl rfl⟩
+    rw [ha0, conv_nil_left]; simp
+  have halen : 0 < a.length := Canon.length_pos_of_not_isZero hza
+  simp only [hza, hzb, Bool.false_eq_true, ↓reduceIte, degree_of_canon ha, degree_of_canon hb,
+    ok_bind, pure_eq_ok]
+  by_cases hlt : a.length - 1 < b.length - 1
+  · refine ⟨[], a, by rw [if_pos hlt], canon_nil, ha, fun k => ?_, Or.inr (by omega)⟩
+    rw [conv_nil_left, zero_add]
+  rw [if_neg hlt, getLast?_eq_coeff hbne]
+  have hlc : coeff b (b.length - 1) ≠ 0 := (canon_iff b).1 hb hbne
+  simp only [hlc, if_false]
+  obtain ⟨q', r', hres, hcr', hinv', hdeg'⟩ :=
+    divLoop_spec a b hbne (coeff b (b.length - 1))⁻¹ (mul_inv_cancel₀ hlc)
+      (a.length - 1 - (b.length - 1) + 1) (a.length + 1)
+      (List.replicate (a.length - 1 - (b.length - 1) + 1) 0) a ha (by omega)
+      (List.length_replicate ..) (by omega)
+      (fun j _ => coeff_replicate_zero _ _)
+      (fun k => by rw [conv_zero_left (fun i => coeff_replicate_zero _ i), zero_add])
+  refine ⟨truncate q', r', ?_, canon_truncate _, hcr', fun k => ?_, hdeg'⟩
+  · rw [hres]; rfl
+  · rw [conv_congr (coeff_truncate q') (fun _ => rfl) k]; exact hinv' k
+
+/-- dividing a non-zero polynomial by the zero polynomial is the documented
+    `panic!("Dividing by zero polynomial")` -/
+theorem divide_by_zero_panic {a b : List F} (hza : isZero a = false) (hzb : isZero b = true) :
+    divideWithQAndR (.d a) (.d b) = .panic := by
+  unfold divideWithQAndR
+  simp [DoS.isZero, hza, hzb]
+
+/-- `0 / b = (0, 0)` for every `b`, including `0 / 0`, as coded -/
+theorem divide_zero_left {a : List F} (b : List F) (hza : isZero a = true) :
+    divideWithQAndR (.d a) (.d b) = .ok ([], []) := by
+  unfold divideWithQAndR
+  simp [DoS.isZero, hza]
+
+theorem divDD_eq {a b : List F} {q r : List F} (h : divideWithQAndR (.d a) (.d b) = .ok (q, r)) :
+    divDD a b = .ok q := by
+  unfold divDD; rw [h]; rfl
+
+theorem divDD_spec {a b : List F} (ha : Canon a) (hb : Canon b) (hbne : b ≠ []) :
+    ∃ q r, divDD a b = .ok q ∧ Canon q ∧ Canon r ∧
+      (∀ k, coeff a k = conv q b k + coeff r k) ∧ (r = [] ∨ r.length < b.length) := by
+  obtain ⟨q, r, h, hq, hr, he, hd⟩ := divide_spec ha hb hbne
+  exact ⟨q, r, divDD_eq h, hq, hr, he, hd⟩
 
 end Div
+
+/-! ## 8. multiplication / division by the vanishing polynomial `Xⁿ − c` -/
+
+section Van
+variable {F : Type} [CommRing F] [DecidableEq F]
+
+theorem mulByVanishingPoly_spec (a : List F) (n : Nat) (c : F) :
+    Canon (mulByVanishingPoly a n c) ∧ ∀ k, coeff (mulByVanishingPoly a n c) k =
+      (if n ≤ k then coeff a (k - n) else 0) - c * coeff a k := by
+  unfold mulByVanishingPoly fromCoefficientsVec
+  refine ⟨canon_truncate _, fun k => ?_⟩
+  rw [coeff_truncate, coeff_zipInto_of_le (fun s x => s - x * c)
+    (fun x => by simp) (by simp), coeff_append, List.length_replicate, coeff_replicate_zero]
+  by_cases hk : k < n
+  · rw [if_pos hk, if_neg (by omega), mul_comm]
+  · rw [if_neg hk, if_pos (by omega), mul_comm]
+
+/-- closed form of the quotient by `Xⁿ − c`: `q_j = Σ_{m < M} a_{j + n(m+1)} c^m` -/
+def qF (a : List F) (n : Nat) (c : F) (M j : Nat) : F :=
+  ∑ m ∈ Finset.range M, coeff a (j + n * (m + 1)) * c ^ m
+
+/-- one iteration of the `for i in 1..len/n` loop of `divide_by_vanishing_poly` -/
+def vanStep (a : List F) (n : Nat) (c : F) (st : List F × F) (k : Nat) : List F × F :=
+  (zipInto (fun s x => s + x * (st.2 * c)) st.1 (a.drop (n * (k + 2))), st.2 * c)
+
+theorem vanFold_spec (a : List F) (n : Nat) (c : F) (K : Nat) :
+    ((List.range K).foldl (vanStep a n c) (a.drop n, 1)).2 = c ^ K ∧
+    ((List.range K).foldl (vanStep a n c) (a.drop n, 1)).1.length = a.length - n ∧
+    ∀ j, coeff ((List.range K).foldl (vanStep a n c) (a.drop n, 1)).1 j = qF a n c (K + 1) j := by
+  induction K with
+  | zero =>
+    refine ⟨by simp, by simp, fun j => ?_⟩
+    simp [qF, coeff_drop, Nat.add_comm]
+  | succ K ih =>
+    obtain ⟨h2, hl, hc⟩ := ih
+    rw [List.range_succ, List.foldl_append]
+    simp only [List.foldl_cons, List.foldl_nil]
+    generalize (List.range K).foldl (vanStep a n c) (a.drop n, 1) = st at h2 hl hc
+    refine ⟨?_, ?_, fun j => ?_⟩
+    · simp only [vanStep, h2, pow_succ]
+    · simp only [vanStep, length_zipInto, hl]
+    · simp only [vanStep]
+      rw [coeff_zipInto_of_le _ (fun x => by simp)
+        (by rw [hl, List.length_drop]; have : n ≤ n * (K + 2) := Nat.le_mul_of_pos_right n (by omega); omega),
+        hc j, coeff_drop, h2]
+      unfold qF
+      rw [Finset.sum_range_succ (n := K + 1)]
+      have e : n * (K + 2) + j = j + n * (K + 1 + 1) := by ring
+      rw [e, pow_succ]
+
+theorem qF_telescope (a : List F) (n : Nat) (c : F) (M k : Nat) (hk : n ≤ k)
+    (hM : a.length ≤ k + n * M) :
+    qF a n c M (k - n) - c * qF a n c M k = coeff a k := by
+  unfold qF
+  rw [Finset.mul_sum, ← Finset.sum_sub_distrib]
+  have h : ∀ m ∈ Finset.range M,
+      coeff a (k - n + n * (m + 1)) * c ^ m - c * (coeff a (k + n * (m + 1)) * c ^ m) =
+      -((fun m => coeff a (k + n * m) * c ^ m) (m + 1) - (fun m => coeff a (k + n * m) * c ^ m) m) := by
+    intro m _
+    have e : k - n + n * (m + 1) = k + n * m := by
+      rw [Nat.mul_succ]; omega
+    simp only [e, pow_succ]
+    ring
+  rw [Finset.sum_congr rfl h, Finset.sum_neg_distrib,
+    Finset.sum_range_sub (fun m => coeff a (k + n * m) * c ^ m) M]
+  simp only [Nat.mul_zero, Nat.add_zero, pow_zero, mul_one]
+  rw [coeff_of_le hM]
+  ring
+
+theorem divideByVanishingPoly_spec {a : List F} (ha : Canon a) (n : Nat) (hn : 0 < n) (c : F) :
+    ∃ q r, divideByVanishingPoly a n c = .ok (q, r) ∧ Canon q ∧ Canon r ∧
+      (∀ k, coeff a k = (if n ≤ k then coeff q (k - n) else 0) - c * coeff q k + coeff r k) ∧
+      r.length ≤ n := by
+  unfold divideByVanishingPoly
+  by_cases hlt : a.length < n
+  · refine ⟨[], a, by rw [if_pos hlt], canon_nil, ha, fun k => ?_, Nat.le_of_lt hlt⟩
+    simp
+  rw [if_neg hlt, if_neg (by omega)]
+  obtain ⟨_, hl, hc⟩ := vanFold_spec a n c (a.length / n - 1)
+  have hfold : (List.range (a.length / n - 1)).foldl
+      (fun (st : List F × F) k =>
+        let op := st.2 * c
+        (zipInto (fun s x => s + x * op) st.1 (a.drop (n * (k + 2))), op)) (a.drop n, (1 : F)) =
+      (List.range (a.length / n - 1)).foldl (vanStep a n c) (a.drop n, 1) := rfl
+  simp only [hfold, fromCoefficientsVec]
+  generalize ((List.range (a.length / n - 1)).foldl (vanStep a n c) (a.drop n, 1)).1 = q at hl hc
+  have hdiv : 1 ≤ a.length / n := (Nat.one_le_div_iff hn).2 (by omega)
+  have hM : a.length / n - 1 + 1 = a.length / n := by omega
+  rw [hM] at hc
+  refine ⟨truncate q, truncate (zipInto (fun s x => s + x * c) (a.take n) q), rfl,
+    canon_truncate _, canon_truncate _, fun k => ?_, ?_⟩
+  · simp only [coeff_truncate]
+    rw [coeff_zipInto _ (fun x => by simp), coeff_take, List.length_take, Nat.min_eq_left (by omega)]
+    by_cases hk : k < n
+    · rw [if_pos hk, if_pos hk, if_neg (by omega)]
+      ring
+    · rw [if_neg hk, if_pos (by omega), hc, hc, add_zero]
+      refine (qF_telescope a n c (a.length / n) k (by omega) ?_).symm
+      have h1 := Nat.div_add_mod a.length n
+      have h2 := Nat.mod_lt a.length hn
+      have h3 : n ≤ k := by omega
+      generalize n * (a.length / n) = t at h1 ⊢
+      omega
+  · refine le_trans (length_truncate_le_length _) ?_
+    rw [length_zipInto, List.length_take]
+    exact Nat.min_le_left _ _
+
+end Van
+
+/-! ## 9. bridge to `Polynomial F` -/
+
+section Bridge
+open Polynomial
+variable {F : Type} [CommRing F]
+
+/-- the polynomial denoted by a stored coefficient vector -/
+noncomputable def toPoly (p : List F) : F[X] :=
+  ∑ i ∈ Finset.range p.length, C (coeff p i) * X ^ i
+
+theorem coeff_toPoly (p : List F) (k : Nat) : (toPoly p).coeff k = coeff p k := by
+  unfold toPoly
+  rw [finsetSum_coeff]
+  simp only [coeff_C_mul_X_pow]
+  rw [Finset.sum_ite_eq]
+  split
+  · rfl
+  · rename_i h
+    exact (coeff_of_le (by simpa using h)).symm
+
+theorem toPoly_eq_of_coeff {r : List F} {P : F[X]} (h : ∀ k, coeff r k = P.coeff k) : toPoly r = P := by
+  ext k; rw [coeff_toPoly, h]
+
+theorem toPoly_congr {r s : List F} (h : ∀ k, coeff r k = coeff s k) : toPoly r = toPoly s :=
+  toPoly_eq_of_coeff (fun k => by rw [h, coeff_toPoly])
+
+theorem toPoly_nil : toPoly ([] : List F) = 0 := by simp [toPoly]
+
+theorem toPoly_add {r a b : List F} (h : ∀ k, coeff r k = coeff a k + coeff b k) :
+    toPoly r = toPoly a + toPoly b :=
+  toPoly_eq_of_coeff (fun k => by rw [h, Polynomial.coeff_add, coeff_toPoly, coeff_toPoly])
+
+theorem toPoly_sub {r a b : List F} (h : ∀ k, coeff r k = coeff a k - coeff b k) :
+    toPoly r = toPoly a - toPoly b :=
+  toPoly_eq_of_coeff (fun k => by rw [h, Polynomial.coeff_sub, coeff_toPoly, coeff_toPoly])
+
+theorem toPoly_neg {r a : List F} (h : ∀ k, coeff r k = - coeff a k) : toPoly r = - toPoly a :=
+  toPoly_eq_of_coeff (fun k => by rw [h, Polynomial.coeff_neg, coeff_toPoly])
+
+theorem toPoly_smul {r a : List F} {f : F} (h : ∀ k, coeff r k = coeff a k * f) :
+    toPoly r = C f * toPoly a :=
+  toPoly_eq_of_coeff (fun k => by rw [h, Polynomial.coeff_C_mul, coeff_toPoly, mul_comm])
+
+theorem toPoly_add_smul {r a b : List F} {f : F} (h : ∀ k, coeff r k = coeff a k + f * coeff b k) :
+    toPoly r = toPoly a + C f * toPoly b :=
+  toPoly_eq_of_coeff (fun k => by
+    rw [h, Polynomial.coeff_add, Polynomial.coeff_C_mul, coeff_toPoly, coeff_toPoly])
+
+theorem coeff_toPoly_mul [DecidableEq F] (a b : List F) (k : Nat) :
+    (toPoly a * toPoly b).coeff k = conv a b k := by
+  rw [Polynomial.coeff_mul,
+    Finset.Nat.sum_antidiagonal_eq_sum_range_succ (fun i j => (toPoly a).coeff i * (toPoly b).coeff j)]
+  unfold conv convF
+  exact Finset.sum_congr rfl (fun i _ => by rw [coeff_toPoly, coeff_toPoly])
+
+theorem toPoly_mul [DecidableEq F] {r a b : List F} (h : ∀ k, coeff r k = conv a b k) :
+    toPoly r = toPoly a * toPoly b :=
+  toPoly_eq_of_coeff (fun k => by rw [h, coeff_toPoly_mul])
+
+theorem toPoly_divmod [DecidableEq F] {a q b r : List F}
+    (h : ∀ k, coeff a k = conv q b k + coeff r k) : toPoly a = toPoly q * toPoly b + toPoly r :=
+  toPoly_eq_of_coeff (fun k => by rw [h, Polynomial.coeff_add, coeff_toPoly_mul, coeff_toPoly])
+
+theorem eval_toPoly [DecidableEq F] (p : List F) (x : F) : (toPoly p).eval x = evaluate p x := by
+  rw [evaluate_eq_sum]
+  unfold toPoly
+  rw [eval_finsetSum]
+  exact Finset.sum_congr rfl (fun i _ => by rw [eval_C_mul, eval_pow, eval_X])
+
+theorem degree_toPoly_lt (p : List F) : (toPoly p).degree < (p.length : WithBot ℕ) :=
+  (degree_lt_iff_coeff_zero _ _).2 (fun m hm => by rw [coeff_toPoly]; exact coeff_of_le hm)
+
+theorem le_degree_toPoly {p : List F} (hp : Canon p) (hne : p ≠ []) :
+    ((p.length - 1 : ℕ) : WithBot ℕ) ≤ (toPoly p).degree :=
+  le_degree_of_ne_zero (by rw [coeff_toPoly]; exact (canon_iff p).1 hp hne)
+
+theorem degree_toPoly_lt_of_length {r b : List F} (hb : Canon b) (hbne : b ≠ [])
+    (h : r = [] ∨ r.length < b.length) : (toPoly r).degree < (toPoly b).degree := by
+  refine lt_of_lt_of_le (degree_toPoly_lt r) (le_trans ?_ (le_degree_toPoly hb hbne))
+  have : r.length ≤ b.length - 1 := by
+    rcases h with h | h
+    · rw [h]; simp
+    · omega
+  exact_mod_cast this
+
+theorem toPoly_ne_zero {b : List F} (hb : Canon b) (hbne : b ≠ []) : toPoly b ≠ 0 := by
+  intro h
+  have := (canon_iff b).1 hb hbne
+  rw [← coeff_toPoly, h] at this
+  simp at this
+
+/-- the vanishing polynomial form of `mulByVanishingPoly` / `divideByVanishingPoly` -/
+theorem coeff_mul_X_pow_sub_C (P : F[X]) (n : Nat) (c : F) (k : Nat) :
+    (P * (X ^ n - C c)).coeff k = (if n ≤ k then P.coeff (k - n) else 0) - c * P.coeff k := by
+  rw [mul_sub, Polynomial.coeff_sub, coeff_mul_X_pow', Polynomial.coeff_mul_C, mul_comm]
+
+end Bridge
+
+section BridgeField
+open Polynomial
+variable {F : Type} [Field F]
+
+/-- uniqueness of Euclidean division in `F[X]` -/
+theorem div_mod_unique {A B Q R : F[X]} (hB : B ≠ 0) (h : A = Q * B + R) (hd : R.degree < B.degree) :
+    A / B = Q ∧ A % B = R := by
+  have hmod : A % B = R := by
+    rw [h, Polynomial.add_mod, (Polynomial.mod_eq_self_iff hB).2 hd]
+    have : (Q * B) % B = 0 := EuclideanDomain.mod_eq_zero.2 (dvd_mul_left B Q)
+    rw [this, zero_add]
+  refine ⟨?_, hmod⟩
+  have h1 := EuclideanDomain.div_add_mod A B
+  rw [hmod] at h1
+  have h2 : B * (A / B) = B * Q := by
+    have : B * (A / B) + R = B * Q + R := by rw [h1, h, mul_comm]
+    exact add_right_cancel this
+  exact mul_left_cancel₀ hB h2
+
+end BridgeField
 
 end Ark.Poly.A
